@@ -221,6 +221,12 @@ def run(tier):
             v.reject('C15:' + ','.join(cl), {'layout': r['layout'], 'failed': cl,
                                              'raised': r['raised'],
                                              'observed': common.trim(r['observed'], 1500)})
+    def _corrupt(r):
+        if r['raised'] or not r['observed']['A']['present']:
+            return None
+        r['observed']['A']['n_fail'] += 1
+        return r
+    common.binding_selftest('c15', 'C15_Data', recs, _corrupt)
     rc = v.finish()
     kinds = {}
     for l in lays:
